@@ -438,6 +438,17 @@ Section Ring.
     rewrite sum_swap in E2. rewrite E1 in E2. symmetry. exact E2.
   Qed.
 
+  (* sigma = Abar T Abar^T : the congruence behind symmetry and positive-definiteness *)
+  Lemma sigma_congruence r a sigma P :
+    (forall k, (1 <= k <= P)%nat -> sum (fun i => A a i * Rl r k i) (S P) == 0) ->
+    sum (fun i => A a i * Rl r 0 i) (S P) == sigma ->
+    sum (fun j => sum (fun i => (A a i * Rl r j i) * tr (A a j)) (S P)) (S P) == sigma.
+  Proof.
+    intros HF HF0. rewrite sum_only0.
+    - rewrite sum_mul_r. simpl coefA. rewrite tr_1, mul_1_r. exact HF0.
+    - intros j Hj. rewrite sum_mul_r. rewrite HF by lia. apply mul_0_l.
+  Qed.
+
   (* MAIN: the recursion solves the block Yule-Walker system of order P = len(r) - 1 *)
   Theorem lwr_solves_block_YW_lemma r P :
     length r = S P ->
